@@ -30,6 +30,46 @@ class BadStrError(Exception):
         raise RuntimeError("no str for you")
 
 
+class BadReprError(Exception):
+    """__repr__ raises; str() of an Exception with one argument does not use it, anything that formats with %r does"""
+
+    def __repr__(self):
+        raise RuntimeError("no repr for you")
+
+
+class NonStrError(Exception):
+    """__str__ returns something that is not a string: str() raises TypeError"""
+
+    def __str__(self):
+        return None
+
+
+class BadArgError(Exception):
+    """str() renders the single argument with its __str__, which raises"""
+
+    def __init__(self, msg):
+        Exception.__init__(self, _Unprintable())
+
+
+class _Unprintable(object):
+    def __str__(self):
+        raise ValueError("cannot print")
+    __repr__ = __str__
+
+
+class FormatError(Exception):
+    """an application exception that formats its fields with %d and was constructed with None"""
+
+    def __init__(self, msg):
+        Exception.__init__(self, msg)
+        self.limit = None
+
+    def __str__(self):
+        return "quota of %d bytes exceeded" % self.limit
+
+
+UNRENDERABLE = ("BadStrError", "BadReprError", "NonStrError", "BadArgError", "FormatError")
+
 LongNameError = type("L" + "o" * 230 + "ngError", (RuntimeError,), {"__module__": __name__})
 
 # classes whose BARE name is shared by a class of another module (the caller must still tell them apart)
@@ -45,7 +85,8 @@ HOMONYMS = {"Rejected@alpha": RejectedA, "Rejected@beta": RejectedB, "Rejected@b
 
 EXC_CLASSES = {"ValueError": ValueError, "KeyError": KeyError, "ZeroDivisionError": ZeroDivisionError,
                "MyError": MyError, "MyDeepError": MyDeepError, "CafeError": CaféError, "LongNameError": LongNameError,
-               "AssertionError": AssertionError, "OSError": OSError, "BadStrError": BadStrError}
+               "AssertionError": AssertionError, "OSError": OSError, "BadStrError": BadStrError, "BadReprError": BadReprError,
+               "NonStrError": NonStrError, "BadArgError": BadArgError, "FormatError": FormatError}
 EXC_CLASSES.update(HOMONYMS)
 # foolscap's own exception classes, raised by the application code of the callee (or relayed through a middle party)
 from foolscap.tokens import BananaError as _BananaError, NegotiationError as _NegotiationError
@@ -253,6 +294,42 @@ def shared_ok(variant, got):
 SHARED_VARIANTS = ["twice", "dictalias", "nested", "mixed"]
 
 
+# ------------------------------------------------------------------ dicts whose keys python3 cannot put in order
+DICT_KEY_VARIANTS = ["int-str", "tuple-hetero", "bytes-str", "nan-decimals", "mixed-nan", "tuple-nested", "tuple-int", "str-tuple-str"]
+
+
+def dict_keys_value(variant):
+    """a legal (hashable, serializable) dict argument whose keys.sort() raises: keys of different types, keys of ONE type that
+    are not mutually orderable, keys whose comparison raises an ArithmeticError, and combinations"""
+    from decimal import Decimal
+    if variant == "int-str":
+        return {1: 2, 'a': 3}
+    if variant == "tuple-hetero":
+        return {(1, 'a'): 'x', ('b', 2): 'y'}
+    if variant == "bytes-str":
+        return {b'k': 1, 'k': 2, b'j': 3}
+    if variant == "nan-decimals":
+        return {Decimal('NaN'): 1, Decimal('1.5'): 2, Decimal('-3'): 3}
+    if variant == "mixed-nan":
+        return {Decimal('2'): 1, Decimal('NaN'): 2, 'a': 3, Decimal('1'): 4}
+    if variant == "tuple-nested":
+        return {(1, (2, 'a')): 1, (1, ('b', 2)): 2}
+    if variant == "tuple-int":
+        return {(1, 2): 'p', 3: 'q', (0,): 'r'}
+    if variant == "str-tuple-str":
+        return {'b': 1, ('a', 1): 2, 'a': 3, (1, 'a'): 4}
+    raise ValueError(variant)
+
+
+def canon_dict(v):
+    """order- and identity-free form of a nested value (a NaN key is not equal to itself)"""
+    if isinstance(v, dict):
+        return ["dict"] + sorted([repr(canon_dict(k)), repr(canon_dict(x))] for k, x in v.items())
+    if isinstance(v, (list, tuple)):
+        return [type(v).__name__] + [canon_dict(x) for x in v]
+    return repr(v)
+
+
 # ------------------------------------------------------------------ one batch
 def pair(tubid_target, tubid_caller, vocab=None):
     """two Brokers back to back on loopback transports; the first lives in Tub `tubid_target`.  vocab = index of the
@@ -409,6 +486,8 @@ def issue(rrs, spec):
         return rrs["typed"].callRemote(meth, bad)
     if k == "mixed-keys":
         return rrs["plain"].callRemote("echo", {1: 2, 'a': 3})
+    if k == "dict-keys":            # keys that cannot be ordered, at nesting depth d; echo sends the dict back: both directions
+        return rrs["plain"].callRemote("echo", nest(spec["depth"], dict_keys_value(spec["variant"])))
     if k == "arg-surrogate":        # a str that UTF-8 cannot encode, at nesting depth d
         return rrs["plain"].callRemote("echo", nest(spec["depth"], u"ab\udcffcd"))
     if k == "arg-deep":             # a list nested deeper than the interpreter's recursion limit
@@ -486,6 +565,93 @@ class Tap:
         return b"".join(self.data)
 
 
+
+def token_length(buf):
+    """length in bytes of the first complete Banana token of buf, or None"""
+    hdr, shift, i, n = 0, 0, 0, len(buf)
+    while i < n and buf[i] < 0x80:
+        hdr |= buf[i] << shift
+        shift += 7
+        i += 1
+    if i >= n:
+        return None
+    b = buf[i]
+    i += 1
+    if b in (0x82, 0x85, 0x86, 0x8D):
+        i += hdr
+    elif b == 0x84:
+        i += 8
+    return i if i <= n else None
+
+
+class RecvTrace:
+    """hands a Broker its input one whole token at a time (C07: chunking is irrelevant) and records after every token what
+    Banana.handleData's bookkeeping says: (kind 0 OPEN/1 CLOSE/2 ABORT/3 other, number, handleViolation was called,
+    objectCounter, discardCount, len(receiveStack), inOpen)"""
+
+    def __init__(self, b):
+        self.b = b
+        self.buf = b""
+        self.rows = []
+        self.c0 = b.objectCounter
+        self.viol = 0
+        self.broken = None
+        orig_dr, orig_hv = b.dataReceived, b.handleViolation
+
+        def hv(*a, **k):
+            self.viol += 1
+            return orig_hv(*a, **k)
+        b.handleViolation = hv
+
+        def dr(data):
+            self.buf += bytes(data)
+            while True:
+                n = token_length(self.buf)
+                if n is None:
+                    break
+                tok, self.buf = self.buf[:n], self.buf[n:]
+                self.viol = 0
+                orig_dr(tok)
+                t = tokenize(tok)[0]
+                kind = {"OPEN": 0, "CLOSE": 1, "ABORT": 2}.get(t[0], 3)
+                self.rows.append((kind, t[1] if kind < 3 else 0, bool(self.viol), b.objectCounter, b.discardCount,
+                                  len(b.receiveStack), bool(b.inOpen), bool(b.disconnected)))
+        b.dataReceived = dr
+
+
+class DeliveryLog:
+    """the callee's inbound delivery queue as it really ran: arrival order with the outcome of each ready_deferred
+    (Broker.scheduleCall), and what was done with each delivery (Broker._doCall ran it / Broker.callFailed answered with an
+    error without running it)"""
+
+    def __init__(self, b):
+        self.queue = []
+        self.handled = []
+        ran = set()
+        orig_s, orig_d, orig_f = b.scheduleCall, b._doCall, b.callFailed
+
+        def sched(delivery, rd):
+            ent = [delivery.reqID, 0]
+            self.queue.append(ent)
+            if rd is not None:
+                def mark(r, ent=ent):
+                    if isinstance(r, failure.Failure):
+                        ent[1] = 1
+                    return r
+                rd.addBoth(mark)
+            return orig_s(delivery, rd)
+
+        def do(delivery):
+            ran.add(delivery.reqID)
+            self.handled.append((0, delivery.reqID))
+            return orig_d(delivery)
+
+        def failed(f, reqID, delivery=None):
+            if delivery is not None and reqID not in ran:
+                self.handled.append((1, reqID))
+            return orig_f(f, reqID, delivery)
+        b.scheduleCall, b._doCall, b.callFailed = sched, do, failed
+
 def run_batch(specs, opts):
     """issue all calls of `specs` back to back (before any byte is delivered: the eventual-send queue holds the
     loopback writes), then let everything settle, then one more call.  -> dict(results, later, disconnected, ...)"""
@@ -510,6 +676,7 @@ def _run_batch(specs, opts):
     tb, cb, rrs, targets = setup(opts)
     E.turn()
     tap_c, tap_t = Tap(cb), Tap(tb)
+    rt_callee, rt_caller, dlog = RecvTrace(tb), RecvTrace(cb), DeliveryLog(tb)
     open0 = cb.openCount
     topen0 = tb.openCount
     results = [None] * len(specs)
@@ -549,7 +716,9 @@ def _run_batch(specs, opts):
                caller_bytes=tap_c.bytes(), callee_bytes=tap_t.bytes(), open0=open0, topen0=topen0,
                counters=dict(caller_sent=cb.openCount, callee_seen=tb.objectCounter, callee_sent=tb.openCount, caller_seen=cb.objectCounter),
                executed=list(EXECUTED), far_executed=list(FAR_EXECUTED), waiting=len(cb.waitingForAnswers), active_local=len(tb.activeLocalCalls), escaped=escaped,
-               logged=len(E.logged_errors) - n_err0)
+               logged=len(E.logged_errors) - n_err0,
+               recv_trace=dict(callee=(rt_callee.c0, rt_callee.rows), caller=(rt_caller.c0, rt_caller.rows)),
+               deliveries=dict(queue=[tuple(x) for x in dlog.queue], handled=list(dlog.handled)))
     return out
 
 
@@ -675,3 +844,93 @@ def failure_state(cls, msg, unsafe, parents=None, tb_text=None):
     except Exception as e:
         st = type(e).__name__
     return st, inputs
+
+
+# ------------------------------------------------------------------ direct use of the caller-side delivery code
+class _Req:
+    def __init__(self):
+        self.got = []
+
+    def fail(self, f):
+        self.got.append(f)
+
+
+class _B:
+    def __init__(self, expose):
+        self._expose_remote_exception_types = expose
+
+
+def real_deliver(state, expose, probes):
+    """ErrorUnslicer.receiveClose on a CopiedFailure built from `state` (bytes fields) -> (wrapped, fields intact,
+    qual(f.type) of what the request got, [f.check(name) for name in probes])"""
+    cf = call.CopiedFailure()
+    cf.setCopyableState(dict(state))
+    u = call.ErrorUnslicer()
+    u.broker = _B(expose)
+    u.request = _Req()
+    u.failure = cf
+    u.gotFailure = True
+    u.receiveClose()
+    (f,) = u.request.got
+    wrapped = isinstance(f.value, RemoteException) and getattr(f.value, "failure", None) is cf
+    intact = (cf.value == six_str(state["value"]) and cf.traceback == six_str(state["traceback"])
+              and cf.parents == [six_str(p) for p in state["parents"]] and (wrapped or f is cf))
+    return wrapped, intact, reflect.qual(f.type), [f.check(n) is not None for n in probes]
+
+
+class _Tub:
+    def __init__(self, lr):
+        self.logRemoteFailures = lr
+        self.logLocalFailures = False
+
+    def getShortTubID(self):
+        return "tubid"
+
+
+class _TR:
+    def getShortTubID(self):
+        return "their"
+
+
+class _B2:
+    def __init__(self, tub):
+        self.tub = tub
+        self.remote_tubref = _TR()
+        self.removed = 0
+
+    def removeRequest(self, req):
+        self.removed += 1
+
+
+def real_fail(log_remote_failures, known, active, with_tub=True):
+    """PendingRequest.fail on a request of a target with / without RemoteInterface -> (raised, active afterwards, times fired)"""
+    req = call.PendingRequest(7, None, "RIFoo" if known else None, "meth")
+    req.interfaceName = "RIFoo" if known else None       # (as RemoteReference._callRemote sets them)
+    req.methodName = "meth"
+    req.broker = _B2(_Tub(log_remote_failures) if with_tub else None)
+    fired = []
+    req.deferred.addErrback(lambda f: fired.append(1))
+    req.active = active
+    raised = False
+    try:
+        req.fail(failure.Failure(ValueError("x")))
+    except Exception:
+        raised = True
+    return raised, bool(req.active), len(fired)
+
+
+def real_requal(name):
+    cf = call.CopiedFailure()
+    cf.setCopyableState(dict(type=name.encode("utf-8"), value=b"", traceback=b"", parents=[]))
+    return reflect.qual(cf.type)
+
+
+def real_relay(state, unsafe):
+    """what a middle party sends on for a CopiedFailure it received: CopiedFailureSlicer.getStateToCopy -> state dict (bytes) or
+    the name of the exception it raised"""
+    cf = call.CopiedFailure()
+    cf.setCopyableState(dict(state))
+    try:
+        return call.CopiedFailureSlicer(cf).getStateToCopy(cf, FakeBroker(unsafe))
+    except Exception as e:
+        return type(e).__name__
